@@ -750,6 +750,11 @@ def run(ctx, load):
     check_tracer(P, ctx)
     check_container_marks(P, ctx)
     check_raw_parts(load(None, 'default'), ctx)
+    # the marker finds an object only through the registry's lookup and marks it through GC_Mark_Item: both evaluated on registries whose
+    # pointers collide and wrap (gcmodel, shared with C17)
+    from .rules_c17 import report_registry
+    report_registry(P, ctx, 'C01.registry-lookup', ('mem', 'mark'))
+    ctx.floor('C01.registry-lookup', 2)
     check_sweep_and_cycle(P, ctx)
     check_root_flag(P, ctx)
     from .rules_c17 import check_entry_moves_whole
